@@ -259,7 +259,11 @@ BaseTrees ==
     [T |-> "TTLTLV", Type |-> <<3>>, Seconds |-> <<0, 120>>] }
 \* DHCP option lists are also decoded on their own
 OptLists == { <<>>, <<DOpt(53, <<1>>)>>, <<DOpt(0, <<>>), DOpt(1, V(1, 4)), DOpt(3, V(2, 8)), DOpt(255, <<>>)>>, <<DOpt(12, V(3, 40)), DOpt(60, <<>>)>> }
-NextBASE == \/ \E t \in BaseTrees :
+LldpFrame == EncPkt([T |-> "ChassisTLV", Type |-> <<1>>, Subtype |-> <<4>>, Data |-> V(50, 6)]) \o EncPkt([T |-> "PortTLV", Type |-> <<2>>, Subtype |-> <<5>>, Data |-> V(51, 4)])
+             \o EncPkt([T |-> "TTLTLV", Type |-> <<3>>, Seconds |-> <<0, 120>>]) \o <<0, 0>>
+NextBASE == \/ /\ c' = <<"lldp">>
+               /\ PrintT(ToJson([entry |-> "LLDP", kind |-> "LLDP", frame |-> LldpFrame]))
+            \/ \E t \in BaseTrees :
                  /\ c' = <<t>>
                  /\ PrintT(ToJson([entry |-> t.T, kind |-> t.T, frame |-> EncPkt(t)]))
             \/ \E ol \in OptLists :
